@@ -225,6 +225,10 @@ def run_pool(prop, verif_seed, tier, nfam, nworkers, wall_cap, twice_every=16):
     total['truncated'] = False
     errors = []
     finished = set()
+    # VERIF_STOP_AT_FIRST=1 (used by tools/seeded.py only): hand out no further
+    # families once a violation that is not a listed finding has been seen
+    stop_first = os.environ.get('VERIF_STOP_AT_FIRST') == '1'
+    known = load_known() if stop_first else {}
     while conns:
         ready = wait(list(conns), timeout=1.0)
         for r in ready:
@@ -254,6 +258,10 @@ def run_pool(prop, verif_seed, tier, nfam, nworkers, wall_cap, twice_every=16):
                 total['samples'] += a['samples']
                 total['violations'] += a['violations']
                 total['nviol'] += a['nviol']
+                if stop_first and any((prop, v_['sig']) not in known
+                                      for _c, v_ in a['violations']):
+                    with counter.get_lock():
+                        counter.value = max(counter.value, nfam)
                 total['digests'].update(a['digests'])
                 total['nondet'] += a['nondet']
                 total['families'] += a.get('families', 0)
